@@ -108,9 +108,10 @@ class VHDX(AlignedStream):
         sectors_read = []
 
         while count > 0:
-            read_count = min(count, self._sectors_per_block)
-            read_size = read_count * self.sector_size
             block, sector_in_block = divmod(sector, self._sectors_per_block)
+            # Never read past the end of the current block
+            read_count = min(count, self._sectors_per_block - sector_in_block)
+            read_size = read_count * self.sector_size
             bat_entry = self.bat.pb(block)
 
             if bat_entry.state == c_vhdx.PAYLOAD_BLOCK_NOT_PRESENT:
@@ -172,6 +173,9 @@ class VHDX(AlignedStream):
         return b"".join(sectors_read)
 
     def _read(self, offset: int, length: int) -> bytes:
+        # The stream may ask for a full aligned chunk that runs past the end of the disk
+        length = min(length, self.size - offset)
+
         sector = offset // self.sector_size
         count = (length + self.sector_size - 1) // self.sector_size
 
